@@ -35,8 +35,6 @@ structure PSeq where
   fin : Nat                       -- `InstrSeq::end` (location of the terminating `end`/`else`)
   deriving Repr
 
-def defaultLoc : Nat := 0xffffffff
-
 structure PSt where
   seqs : List PSeq                -- arena: id = position
   controls : List PFrame          -- innermost first
@@ -189,6 +187,6 @@ def buildBody (e : PEnv) (entryTy : Nat) (ops : List (Op × Nat)) : Option (List
   (prun e st0 ops).map (·.seqs)
 
 def PSeqs.toArena (seqs : List PSeq) : BArena :=
-  seqs.zipIdx.map fun p => (p.2, p.1.ty, p.1.instrs.map (fun q => bT q.1))
+  seqs.zipIdx.map fun p => (p.2, (p.1.ty, p.1.fin), p.1.instrs.map bT)
 
 end Walrus
